@@ -30,3 +30,34 @@ Theorem C15_rebuild_temporary_inherits_no_limits :
   forall t t', no_limits t -> no_limits (set_mhp (set_mlf t' 0 1) (mhp t)).
 Proof. exact set_limits_no_limits. Qed.
 Print Assumptions C15_rebuild_temporary_inherits_no_limits.
+
+(* ---- policy exceptions cannot arise on tables handed out by the C interface (CApiRefine.v): an insertion-type call on a table with no limits ends in success (and the table still has no limits), never in load_factor_too_low / maximum_hashpower_exceeded ---- *)
+From LC Require Import Lazy Refine LazyRefine NoFuel CApiRefine.
+Theorem C15_insert_on_c_table_no_policy_exception :
+  forall (c : config) (hash : N -> N),
+  InvDefs.cfg_ok c ->
+  nothrow c = true ->
+  forall (t : table) (k : N) (v : Z) (g : Z -> bool -> option (Z * bool)) (t' : table)
+  (r : exn + bool * list rv * (N * N)),
+  lgood c hash t ->
+  no_limits t ->
+  uprase_gen c hash false t k v g = (t', r) ->
+  lesc c hash t \/
+  (exists e : exn, r = inl e /\ e = EOutOfFuel) \/
+  (exists (ins : bool) (lg : list rv) (pos : N * N),
+  r = inr (ins, lg, pos) /\ lgood c hash t' /\ no_limits t').
+Proof. exact c_table_insert_no_policy_exception. Qed.
+Print Assumptions C15_insert_on_c_table_no_policy_exception.
+
+Theorem C15_locked_insert_on_c_table_never_throws :
+  forall (c : config) (hash : N -> N),
+  InvDefs.cfg_ok c ->
+  nothrow c = true ->
+  forall (t : table) (k : N) (v : Z) (g : Z -> bool -> option (Z * bool)),
+  good c hash t ->
+  no_limits t ->
+  esc c hash t \/
+  (exists (ins : bool) (lg : list rv) (pos : N * N),
+  snd (uprase_gen c hash true t k v g) = inr (ins, lg, pos)).
+Proof. exact c_table_locked_insert_never_throws. Qed.
+Print Assumptions C15_locked_insert_on_c_table_never_throws.
